@@ -10,10 +10,10 @@ SCHEMA_MUTS = ['append_attribute', 'delete_attribute', 'insert_attribute', 'defi
                'define_association']
 
 
-def schedules(tier, seed):
+def schedules(tier, seed, late=False):
     d = tlc.prepare_dir(['Builds', 'MC_Builds'], {
-        'mc.cfg': 'CONSTANTS\n  Chunks = 3\n  MaxModels = %d\n  MaxMut = 2\nSPECIFICATION Spec\nINVARIANT TypeOK\n'
-                  'CHECK_DEADLOCK FALSE\n' % (2 if tier == 'quick' else 3)})
+        'mc.cfg': 'CONSTANTS\n  Chunks = 3\n  MaxModels = %d\n  MaxMut = %d\n  Late = %s\nSPECIFICATION Spec\nINVARIANT TypeOK\n'
+                  'CHECK_DEADLOCK FALSE\n' % (2 if tier == 'quick' else 3, 1 if late else 2, 'TRUE' if late else 'FALSE')})
     dot = os.path.join(d, 'g.dot')
     r = tlc.check_model(d, 'MC_Builds', 'mc.cfg', args=('-dump', 'dot,actionlabels', dot))
     g = tours.parse_dot(dot)
@@ -86,6 +86,57 @@ def concretise(schema, labels, rnd):
     return acts
 
 
+def concretise_late(schema, labels, rnd):
+    """a schedule of Builds.tla with Late = TRUE -> concrete calls: chunk 1 is the CREATE TABLE statements, which may
+    arrive after rows and builds or never; rows are written in the lexical forms that fix their type"""
+    pop = [r for r in c03.random_population(schema, rnd, rnd.randint(3, 8))]
+    rnd.shuffle(pop)
+    cut = rnd.randint(1, len(pop) - 1)
+
+    # all rows of a class are written the same way (a class inferred from a positional insert has no attribute names a
+    # later named insert could refer to, and the other way round)
+    mode = {c: rnd.random() < 0.35 for c in schema['classes']}
+
+    def rows_chunk(rows):
+        return {'parts': [], 'rows': rows, 'canonical': True, 'named': [mode[r['c']] for r in rows]}
+    chunks = {1: {'parts': ['table'], 'rows': []}, 2: rows_chunk(pop[:cut]), 3: rows_chunk(pop[cut:])}
+    acts = []
+    fed = []
+    books = []
+    for lab in labels:
+        name, args = tours.parse_label(lab)
+        if name == 'Feed':
+            acts.append(['Input', chunks[args[0]], rnd.randint(0, 10 ** 6)])
+            fed.append(args[0])
+        elif name == 'BuildModel':
+            rows = [r for c in fed for r in chunks[c]['rows']]
+            named = [n for c in fed if c != 1 for n in chunks[c]['named']]
+            undecl = {}
+            if 1 not in fed:
+                for c in schema['classes']:
+                    first = [n for r, n in zip(rows, named) if r['c'] == c]
+                    undecl[c] = 'none' if not first else ('named' if first[0] else 'pos')
+            acts.append(['Build', {'undecl': undecl or {'_': '_'}}])
+            b = ModelBook(schema, rows)
+            b.usable = [c for c in schema['classes'] if undecl.get(c) != 'none']
+            books.append(b)
+        elif name in ('Mutate', 'SchemaMutate'):
+            b = books[args[0] - 1]
+            if b.live and rnd.random() < 0.5:
+                x = rnd.choice(b.live)
+                b.live.remove(x)
+                act = ['Delete', x[0], x[1]]
+            elif b.usable:
+                c = rnd.choice(b.usable)
+                b.born[c] += 1
+                b.live.append((c, b.born[c]))
+                act = ['New', c, [], {}]
+            else:
+                act = ['RelateNone']
+            acts.append(['Mutate', args[0], act])
+    return acts
+
+
 def focus_traces(events):
     """one recorded multi-model trace -> one MetaTrace trace per built model"""
     nmodels = max((len(e['models']) for e in events), default=0)
@@ -93,6 +144,7 @@ def focus_traces(events):
     for k in range(1, nmodels + 1):
         tr = []
         built = False
+        undecl = None
         for e in events:
             proj = e['models'][k - 1] if len(e['models']) >= k else None
             base = {'res': e['res'], 'oerr': '', 'spell': {'_': []}, 'ser': {'_': []}, 'q': [], 'qr': [], 'fix': ''}
@@ -101,6 +153,7 @@ def focus_traces(events):
             elif e['op'] == 'Build' and not built and proj is not None and len(e['models']) == k:
                 ev = dict(base, op='BuildFocus', g=e.get('g', -1))
                 built = True
+                undecl = e.get('undecl')
             elif e['op'] == 'Mutate' and e.get('model') == k:
                 ev = dict(base)
                 ev.update(e['sub'])
@@ -117,6 +170,8 @@ def focus_traces(events):
                     continue
             else:
                 ev.update({kk: proj[kk] for kk in ('pool', 'nav', 'attr', 'schema')})
+                if undecl:
+                    ev['undecl'] = undecl
                 ev['oerr'] = proj.get('oerr', '')
                 ev['spell'] = {c: [] for c in proj['pool']}
                 ev['ser'] = {c: [] for c in proj['pool']}
@@ -144,6 +199,13 @@ def check(tier, replay_path=None):
         for i, labels in enumerate(ts * reps):
             name = names[i % len(names)]
             groups.setdefault(name, []).append({'acts': concretise(schemas.SCHEMAS[name], labels, rnd)})
+        # the schema arrives late or never (classes inferred from the rows)
+        mc2, g2, ts2, cov2, tot2 = schedules(tier, seed, late=True)
+        covered += cov2
+        total += tot2
+        late_states = mc2.distinct
+        for labels in ts2 * reps:
+            groups.setdefault('plain2', []).append({'acts': concretise_late(schemas.SCHEMAS['plain2'], labels, rnd)})
     steps = 0
     accepted = 0
     distinct = set()
@@ -191,7 +253,7 @@ def check(tier, replay_path=None):
     rc = rep.finish()
     if replay_path:
         return rc
-    cov = {'states': mc.distinct, 'transitions': mc.generated, 'traces_validated_against_impl': accepted,
+    cov = {'states': mc.distinct + mc2.distinct, 'transitions': mc.generated + mc2.generated, 'traces_validated_against_impl': accepted,
            'evaluations': steps, 'distinct_nontrivial': len(distinct), 'tour_edges_covered': covered,
            'tour_edges_total': total, 'calls_per_outcome': outcomes,
            'rule': 'one evaluation = one call (input, build, mutation of some built metamodel, schema change of a metamodel) seen from '
@@ -199,7 +261,7 @@ def check(tier, replay_path=None):
                    'is validated by TLC: its own build = Meta!LoadBuild of the rows accepted so far, its own mutations = Meta actions, '
                    'every other call = no change at all; distinct by (schema, focus model, schedule)',
            'samples': samples or [{'note': 'none'}],
-           'model': 'Builds.tla enumerates every interleaving of 3 input chunks, up to 2 (quick) / 3 (thorough) builds and up to 2 '
+           'model': 'Builds.tla (once with the schema chunk first, once with Late = TRUE: the schema chunk anywhere or never, classes inferred) enumerates every interleaving of 3 input chunks, up to 2 (quick) / 3 (thorough) builds and up to 2 '
                     'mutations per metamodel; Meta.tla / MetaTrace.tla decide each metamodel',
            'exhaustive': bool(covered == total)}
     evidence.write(PID, tier, 'model_checking', cov, t.s(), rep.n, [
